@@ -120,9 +120,13 @@ function strLiteral(v, st) {
       const m = { '\t': '\\t', '\b': '\\b', '\f': '\\f', '\v': '\\v' }[ch]
       if (m) esc = m
       else if (cp <= 0xff && rng.bool()) { esc = '\\x' + cp.toString(16).padStart(2, '0'); if (rng.bool(0.4)) esc = '\\x' + esc.slice(2).toUpperCase() }
-      else if (cp <= 0xffff && !(cp >= 0xd800 && cp <= 0xdfff)) esc = rng.bool(0.8) ? '\\u' + cp.toString(16).padStart(4, '0').toUpperCase() : '\\u{' + cp.toString(16) + '}'
+      else if (cp <= 0xffff && !(cp >= 0xd800 && cp <= 0xdfff)) esc = rng.bool(0.8) ? '\\u' + cp.toString(16).padStart(4, '0').toUpperCase() : '\\u{' + cp.toString(16).padStart(rng.int(9) + 1, '0') + '}'
       // an astral character as a surrogate pair of escapes, or as a code point escape
-      else if (cp > 0xffff) esc = rng.bool() ? '\\u' + ch.charCodeAt(0).toString(16) + '\\u' + ch.charCodeAt(1).toString(16).toUpperCase() : '\\u{' + cp.toString(16).padStart(rng.int(2) + 5, '0') + '}' 
+      else if (cp > 0xffff) {
+        const hi = ch.charCodeAt(0).toString(16)
+        const lo = ch.charCodeAt(1).toString(16).toUpperCase()
+        esc = rng.pick([() => '\\u' + hi + '\\u' + lo, () => '\\u{' + cp.toString(16).padStart(rng.int(5) + 5, '0') + '}', () => '\\u{' + hi + '}\\u{' + lo + '}', () => '\\u' + hi + '\\u{00' + lo + '}', () => '\\u{' + hi + '}\\u' + lo])()
+      }
     }
     out += esc === null ? ch : esc
     // a line continuation (backslash + line terminator) denotes nothing
